@@ -9,7 +9,7 @@ import "bytes"
 func VH_C11_ZipReadDirectory() {
 	lens := []int{0, 1, 3, 4, 21, 22, 26, 45, 46, 50, 54}
 	if vhTier() > 0 {
-		lens = append(lens, 2, 5, 23, 47, 60, 68, 72, 76)
+		lens = append(lens, 2, 5, 23, 47, 60) // one full entry + end record (68+) multiplies into >200k paths per length
 	}
 	n := lens[vhConcretize(vhInt("lenidx", 0, len(lens)-1), 32)]
 	vhMaxLen(n + 2)
@@ -30,7 +30,7 @@ func VH_C11_ZipReadDirectory() {
 func VH_C11_ZipRead() {
 	lens := []int{0, 1, 21, 22, 41, 42, 43, 46, 50}
 	if vhTier() > 0 {
-		lens = append(lens, 64, 88, 92)
+		lens = append(lens, 64) // 88+ (two entries) does not finish in 5 minutes
 	}
 	n := lens[vhConcretize(vhInt("lenidx", 0, len(lens)-1), 32)]
 	vhMaxLen(n + 2)
